@@ -1144,6 +1144,12 @@ func (ex *Exec) arithWrap() bool {
 }
 
 func (ex *Exec) overflowCheck() bool {
+	if ex.root != nil && ex.root.contract != nil {
+		return ex.root.contract.Overflow
+	}
+	if ex.root == nil && ex.contract != nil {
+		return ex.contract.Overflow
+	}
 	c := ex.P.contracts.get(funcKey(ex.stack[0]))
 	return c != nil && c.Overflow
 }
